@@ -91,12 +91,12 @@ theorem inv_afterHandshake (p : Params) (hp : goodParams p = true) (cfg : Int) :
     rw [step_fst, hacc] at this
     simpa [seenOf] using this
 
-/-- `admit`: the invariant is carried to the extended list, and what is admitted is new -/
-theorem admit_inv (p : Params) (acc : List (Nat × Nat)) (st : State) (r : Rec) (h : RxInv p acc st) :
-    RxInv p (if (admit p st r).2 then key r :: acc else acc) (admit p st r).1 ∧
-    ((admit p st r).2 = true → key r ∉ acc) ∧
-    (admit p st r).1.cfg = st.cfg ∧ (admit p st r).1.err = st.err := by
-  unfold admit
+/-- `admitRec`: the invariant is carried to the extended list, and what is admitted is new -/
+theorem admitRec_inv (p : Params) (acc : List (Nat × Nat)) (st : State) (r : Rec) (h : RxInv p acc st) :
+    RxInv p (if (admitRec p st r).2 then key r :: acc else acc) (admitRec p st r).1 ∧
+    ((admitRec p st r).2 = true → key r ∉ acc) ∧
+    (admitRec p st r).1.cfg = st.cfg ∧ (admitRec p st r).1.err = st.err := by
+  unfold admitRec
   by_cases hlt : r.epoch < st.readEpoch
   · rw [if_pos hlt]
     exact ⟨by simpa using h, by simp, rfl, rfl⟩
@@ -166,12 +166,12 @@ theorem step_inv (p : Params) (q : RxParams) (path : Path) (acc : List (Nat × N
   have keep : ∃ acc', RxInv p acc' st ∧ (∀ k ∈ acc, k ∈ acc') := ⟨acc, h, fun _ hk => hk⟩
   -- the part both paths share after `decrypt` succeeded
   have admitted : ∀ r : Rec, ∀ (f : State → State), (∀ s, (f s).win = s.win ∧ (f s).readEpoch = s.readEpoch ∧ (f s).cfg = s.cfg) →
-      ∃ acc', RxInv p acc' (f (admit p st r).1) ∧ (∀ k ∈ acc, k ∈ acc') ∧
-        ((admit p st r).2 = true → key r ∉ acc ∧ key r ∈ acc') := by
+      ∃ acc', RxInv p acc' (f (admitRec p st r).1) ∧ (∀ k ∈ acc, k ∈ acc') ∧
+        ((admitRec p st r).2 = true → key r ∉ acc ∧ key r ∈ acc') := by
     intro r f hf
-    obtain ⟨hi, hnew, _, _⟩ := admit_inv p acc st r h
-    obtain ⟨hw, he, hc⟩ := hf (admit p st r).1
-    refine ⟨(if (admit p st r).2 then key r :: acc else acc), ⟨?_, ?_, ?_, ?_⟩, ?_, ?_⟩
+    obtain ⟨hi, hnew, _, _⟩ := admitRec_inv p acc st r h
+    obtain ⟨hw, he, hc⟩ := hf (admitRec p st r).1
+    refine ⟨(if (admitRec p st r).2 then key r :: acc else acc), ⟨?_, ?_, ?_, ?_⟩, ?_, ?_⟩
     · rw [hw]; exact hi.sizeOK
     · rw [hc]; exact hi.cfgOK
     · rw [he]; exact hi.epochLe
@@ -188,7 +188,7 @@ theorem step_inv (p : Params) (q : RxParams) (path : Path) (acc : List (Nat × N
       by_cases ha : r.auth = true
       · simp only [ha, Bool.not_true, Bool.false_eq_true, if_false]
         obtain ⟨acc', hi, hsub, hnew⟩ := admitted r id (fun s => ⟨rfl, rfl, rfl⟩)
-        cases hok : (admit p st r).2 with
+        cases hok : (admitRec p st r).2 with
         | false =>
           simp only [Bool.not_false, if_true]
           exact ⟨acc', hi, hsub, fun r' pl _ ho => by cases ho⟩
@@ -233,7 +233,7 @@ theorem step_inv (p : Params) (q : RxParams) (path : Path) (acc : List (Nat × N
         simp only
         by_cases ha : r.auth = true
         · simp only [ha, Bool.not_true, Bool.false_eq_true, if_false]
-          cases hok : (admit p st r).2 with
+          cases hok : (admitRec p st r).2 with
           | false =>
             simp only [Bool.not_false, if_true]
             obtain ⟨acc', hi, hsub, _⟩ := admitted r id (fun s => ⟨rfl, rfl, rfl⟩)
@@ -373,8 +373,8 @@ theorem fresh_delivered (p : Params) (q : RxParams) (path : Path) (acc : List (N
     (hfresh : ReplaySpec.accept (span p st.win) (seenOf st.readEpoch acc) r.seq = true) :
     (step p q path st (.record r)).2 = .data r.payload := by
   have hc := (check_step p st.win (seenOf st.readEpoch acc) r.seq h.sizeOK h.win).1
-  have hadm : (admit p st r).2 = true := by
-    unfold admit
+  have hadm : (admitRec p st r).2 = true := by
+    unfold admitRec
     have h1 : ¬ r.epoch < st.readEpoch := by omega
     have h2 : ¬ r.epoch > st.readEpoch := by omega
     simp only [h1, h2, if_false]
